@@ -85,16 +85,18 @@ pub fn def_c01() -> CheckDef {
         real: &["InMemDicomObject::write_dataset_with_ts / _with_ts_options (DataSetWriter, StatefulEncoder, encoders)", "deflate adapter (flate2)", "InMemDicomObject::read_dataset_with_ts (DataSetReader, StatefulDecoder, build_object)"],
         stub: &["byte sink and source (SimSink/SimSource)", "independent PS3.5 generator, encoder and parser (oracle)"],
         assumptions: &["fault-free configuration: the transport may segment and interrupt but never fails (failures are C34)", "objects built through the public API have undefined-length items (the API cannot express a defined item length)", "floating point values are finite (NaN != NaN would defeat object equality)"],
-        required_probes: &["nested-depth-3plus", "encapsulated-pixel-data", "defined-length-sequence", "strategy-nochange", "odd-length-value", "typed-date-time-number-value"],
+        required_probes: &["nested-depth-3plus", "encapsulated-pixel-data", "defined-length-sequence", "strategy-nochange", "odd-length-value", "typed-date-time-number-value", "utf8-text", "latin1-text"],
         net: false,
     }
 }
 
 fn gen_model(w: &mut Tape, syn: Syntax, all_undefined: bool) -> Vec<ds::Elem> {
+    let cs = w.weighted(&[5, 2, 2]);
     let cfg = GenCfg {
         encapsulated: syn == Syntax::ExplicitLE,
         all_undefined,
-        latin1: w.chance(1, 4),
+        latin1: cs == 1,
+        utf8: cs == 2,
         ..Default::default()
     };
     let s = ds::gen_dataset(w, &cfg);
@@ -120,6 +122,19 @@ fn probes_for(env: &EnvRef, m: &[ds::Elem]) {
     }
     if odd(m) {
         env.probe("odd-length-value");
+    }
+    fn non_ascii(m: &[ds::Elem]) -> bool {
+        m.iter().any(|e| match &e.val {
+            ds::Val::Prim(ds::Prim::Text(b)) => !b.is_ascii(),
+            ds::Val::Seq { items, .. } => items.iter().any(|i| non_ascii(&i.elems)),
+            _ => false,
+        })
+    }
+    if non_ascii(m) {
+        match m.iter().find(|e| e.tag == (0x0008, 0x0005)).map(|e| &e.val) {
+            Some(ds::Val::Prim(ds::Prim::Text(b))) if b == b"ISO_IR 192" => env.probe("utf8-text"),
+            _ => env.probe("latin1-text"),
+        }
     }
 }
 
@@ -413,6 +428,7 @@ fn run_c04(cfg: usize, w: &mut Tape, env: &EnvRef) -> RunResult {
                                     encapsulated: false,
                                     all_undefined: true,
                                     latin1: false,
+                                    utf8: false,
                                 };
                                 let m = ds::gen_dataset(&mut t2, &cfgm);
                                 m.into_iter().find(|x| matches!(x.val, ds::Val::Prim(_)))
@@ -429,7 +445,18 @@ fn run_c04(cfg: usize, w: &mut Tape, env: &EnvRef) -> RunResult {
                                         }
                                     }
                                     let h = DataElementHeader::new(Tag(m.tag.0, m.tag.1), vr_of(&m.vr), Length(0));
-                                    enc.encode_primitive_element(&h, &prim_value(&m.vr, p)).map_err(|e| Violation::new("write-succeeds", "c04:count:primitive-failed", format!("{}", e)))?;
+                                    // the typed form of dates, times and numbers where one exists (by the seed)
+                                    let value = match p {
+                                        ds::Prim::Text(t) if w.chance(1, 2) => match typed_value(&m.vr, t) {
+                                            Some(v) => {
+                                                env.probe("encoder-typed-value");
+                                                v
+                                            }
+                                            None => prim_value(&m.vr, p),
+                                        },
+                                        _ => prim_value(&m.vr, p),
+                                    };
+                                    enc.encode_primitive_element(&h, &value).map_err(|e| Violation::new("write-succeeds", "c04:count:primitive-failed", format!("{}", e)))?;
                                     expect += bytes.len() as u64;
                                 }
                             }
